@@ -29,7 +29,7 @@ from renormalizer.mps.matrix import asnumpy
 from renormalizer.utils.configs import OFS
 
 # ----------------------------------------------------------------------------- models
-def model_spin(n, qn, rng, enc="01"):
+def model_spin(n, qn, rng, enc="01", cplx=False):
     # enc "01": quantum number = number of flipped spins (never negative; Mps.random / TTNS.random skip every block
     # above qntot and fail for negative totals); enc "pm": +1 / -1 per site with non-negative totals only
     basis = [BasisHalfSpin(i, sigmaqn=([0, 1] if enc == "01" else [1, -1]) if qn else [0, 0]) for i in range(n)]
@@ -46,6 +46,18 @@ def model_spin(n, qn, rng, enc="01"):
             terms += [Op("sigma_+ sigma_-", [a, b], 2 * j), Op("sigma_- sigma_+", [a, b], 2 * j)]
     for i in range(n):
         terms.append(Op("sigma_z", i, float(rng.uniform(-0.3, 0.3))))
+    if cplx:
+        # hermitian but not real: Dzyaloshinskii-Moriya exchange  i D (s+ s- - s- s+)  on neighbours and a complex
+        # next-nearest-neighbour exchange; both conserve the quantum number
+        for i in range(n - 1):
+            dm = float(rng.uniform(0.3, 1.0)) * (1 if rng.random() < 0.5 else -1)
+            terms += [Op("sigma_+ sigma_-", [i, i + 1], 1j * dm), Op("sigma_- sigma_+", [i, i + 1], -1j * dm)]
+        for i in range(n - 2):
+            c = complex(rng.uniform(-0.4, 0.4), rng.uniform(-0.4, 0.4))
+            terms += [Op("sigma_+ sigma_-", [i, i + 2], c), Op("sigma_- sigma_+", [i, i + 2], np.conj(c))]
+        if not qn:
+            for i in range(n):
+                terms.append(Op("sigma_y", i, float(rng.uniform(-0.4, 0.4))))
     if not qn and rng.random() < 0.5:          # no conserved quantity at all
         for i in range(n):
             terms.append(Op("sigma_x", i, float(rng.uniform(-0.4, 0.4))))
@@ -89,7 +101,7 @@ def model_qc(norb, rng):
 def build_model(case, rng):
     k = case["kind"]
     if k == "spin":
-        return model_spin(case["n"], case.get("qn", True), rng, case.get("enc", "01"))
+        return model_spin(case["n"], case.get("qn", True), rng, case.get("enc", "01"), bool(case.get("cplx")))
     if k == "holstein":
         return model_holstein(case["nmol"], case["nbas"], rng)
     if k == "qc":
@@ -368,12 +380,28 @@ def run_case(case):
         out["hilbert_dim"] = int(len(hd0))
         out["qn"] = qn
         mmax0 = case.get("m_init", 8)
-        mps = Mps.random(model, qn if len(qn) > 1 else qn[0], mmax0, percent=1.0)
-        if case.get("prep") == "right":
+        qarg = qn if len(qn) > 1 else qn[0]
+        mps = Mps.random(model, qarg, mmax0, percent=1.0)
+        prep = case.get("prep")
+        if prep == "right":
             mps.ensure_right_canonical()
-        elif case.get("prep") == "mixed":
-            mps.ensure_right_canonical()
-            mps.canonicalise(stop_idx=len(mps) // 2) if len(mps) > 2 else None
+        elif prep in ("warm_sum", "warm_apply", "sum_left", "apply_left"):
+            # warm starts: tensors that are NOT canonical under flags that look canonical.
+            #   Mps.add keeps the flags of its second operand, Mpo.apply those of the state it acts on.
+            prev = Mps.random(model, qarg, max(2, mmax0 // 2), percent=1.0)
+            if prep in ("warm_sum", "warm_apply"):
+                prev.ensure_right_canonical()                  # flags (qnidx 0, to_right) as a previous result has
+            if prep == "warm_sum":
+                mps = mps.scale(0.7).add(prev)
+            elif prep == "sum_left":
+                other = Mps.random(model, qarg, max(2, mmax0 // 2), percent=1.0)
+                other.ensure_right_canonical()
+                mps = other.scale(0.7).add(prev)               # flags of a fresh random state (qnidx n-1, to_left)
+            else:
+                mps = mpo.apply(prev)
+            out["prep_flags"] = [int(mps.qnidx), bool(mps.to_right), bool(mps.check_left_canonical()), bool(mps.check_right_canonical())]
+        if case.get("cplx"):
+            mps = mps.to_complex()
         mps.optimize_config.procedure = [[int(m), float(p)] for m, p in case["procedure"]]
         mps.optimize_config.method = case["method"]
         mps.optimize_config.nroots = int(case.get("nroots", 1))
